@@ -8,6 +8,18 @@ AccWide  == {Acc(v, o[1], o[2], w, st) : v \in {0, 1}, o \in {<<0, 0>>, <<0, 1>>
 AccMin   == {Acc(0, 0, od, 8, st) : od \in {0, 8}, st \in BOOLEAN}
 AccMin2  == {Acc(0, 0, 0, 8, FALSE), Acc(0, 0, 8, 8, TRUE)}
 AllOther == {"call", "callgrow", "grow", "growneg", "if", "else", "end", "loop", "endloop", "mix"}
+(* focus family: accesses through one base, a store and a load, around a join *)
+AccSame  == {Acc(0, 0, 0, 1, TRUE), Acc(0, 0, 0, 8, FALSE)}
+JoinToks == {"if", "else", "end", "call"}
+JoinToksT == {"if", "else", "end", "call", "loop", "endloop", "grow"}
+S4 == {4}
+(* Dimensions the driver adds to every program (not part of the token alphabet):
+   Provenances  where the two address values come from: "param" (the caller), "const" (constants in the body), "narrow" (a
+                sign-extending 16-bit load inside the function, for addresses that are the sign extension of their low half);
+   MemKinds     "own" (defined by the module) or "imported" (defined by another module);
+   CalleeKinds  what call / callgrow call: functions of the module, imported host functions, host functions that re-enter. *)
+Provenances == {"param", "const", "narrow"}
+MemKinds == {"own", "imported"}
 S13 == {1, 3}
 S1 == {1}
 S3 == {3}
